@@ -40,6 +40,8 @@ var c02Dict = []string{
 	"(", ")", "[", "]", "{", "}", ":", ":=", "=", "==", "!=", "<", "<=", ">", ">=", "+", "-", "*", "/", "%", "!", "&&", "||", "&", "|", "?", ",", ";", ".", "_", "..", ".x", "x.y",
 	"\"", "`", "'", "\\", "\"abc\"", "`r`", "'c'", "'", "\"\\", "0", "1", "-1", "1.5", "0x", "1e", "1i", "089", "é", "日", "_é", "_1", "_", "\x00", "\xff", "\xc3", "\xe6\x97", "\n", "\r\n", "\t", " ",
 	" -", "- ", "{{", "}}", "{*", "*}", "{{-", "-}}", "[[", "]]",
+	// digits, letters and spaces beyond ASCII, also directly behind a sign
+	"٣", "３", "৩", "-٣", "+３", "(-৩)", "1٣", "\u00a0", "\u2028", "\u0085", "x\u00a0y", "Ⅷ", "²",
 }
 
 func genC02Delims(t *rapid.T) jetrun.Delims {
